@@ -2,6 +2,7 @@ package v1
 
 import (
 	"net/http"
+	"strconv"
 
 	"github.com/formancehq/go-libs/v5/pkg/query"
 	"github.com/formancehq/go-libs/v5/pkg/storage/bun/paginate"
@@ -14,7 +15,12 @@ import (
 func buildGetLogsQuery(r *http.Request) query.Builder {
 	clauses := make([]query.Builder, 0)
 	if after := r.URL.Query().Get("after"); after != "" {
-		clauses = append(clauses, query.Lt("id", after))
+		// id is a numeric field: a string value is refused by the filter validation
+		if id, err := strconv.ParseUint(after, 10, 64); err == nil {
+			clauses = append(clauses, query.Lt("id", id))
+		} else {
+			clauses = append(clauses, query.Lt("id", after))
+		}
 	}
 
 	if startTime := r.URL.Query().Get("start_time"); startTime != "" {
